@@ -104,9 +104,14 @@ static void cell_cctx(vf::Ctx& c, int pi, int stage) {
     for (int v : value_classes(b.lowerBound, b.upperBound, dflt)) {
         ZSTD_CCtx* cctx = ZSTD_createCCtx();
         struct G { ZSTD_CCtx* c; ~G() { ZSTD_freeCCtx(c); } } g{cctx};
+        int pre[64];
+        snapshot_c(cctx, pre);
         bring_c(c, cctx, stage);
         int before[64], after[64];
         snapshot_c(cctx, before);
+        // compressing a frame, failing, or a session reset never changes a parameter (sticky until a parameter reset)
+        if (stage == S_AFTER_FRAME || stage == S_MIDFRAME || stage == S_AFTER_ERROR || stage == S_RESET_SESSION)
+            for (int i = 0; i < NCP; i++) VF_CHECK(c, pre[i] == before[i], "reaching stage %s changed parameter %s from %d to %d although no setter was called", stage_name[stage], CPARAMS[i].name, pre[i], before[i]);
         size_t r = ZSTD_CCtx_setParameter(cctx, P.p, v);
         snapshot_c(cctx, after);
         bool inb = v >= b.lowerBound && v <= b.upperBound;
@@ -319,7 +324,22 @@ static void seq_case(vf::Ctx& c) {
                 c.note("frame(%zu,%s) ", x.size(), oneshot ? "oneshot" : "stream");
                 break;
             }
-            case 2: ZSTD_CCtx_reset(cctx, ZSTD_reset_session_only); c.note("reset_session "); break;   // parameters must survive
+            case 2: {  // parameters must survive a session reset, also one that follows a failed call
+                int pre[64], post[64];
+                snapshot_c(cctx, pre);
+                if (t.flip()) {
+                    std::vector<uint8_t> x = sample((size_t)t.range(1000, 200000));
+                    uint8_t tiny[8];
+                    size_t r = ZSTD_compress2(cctx, tiny, (size_t)t.range(0, 8), x.data(), x.size());
+                    VF_CHECK(c, ZSTD_isError(r), "a %zu-byte input fit into <=8 bytes?", x.size());
+                    c.note("failed_oneshot ");
+                }
+                ZSTD_CCtx_reset(cctx, ZSTD_reset_session_only);
+                snapshot_c(cctx, post);
+                for (int i = 0; i < NCP; i++) VF_CHECK(c, pre[i] == post[i], "a failed call + session reset changed parameter %s from %d to %d", CPARAMS[i].name, pre[i], post[i]);
+                c.note("reset_session ");
+                break;
+            }
             case 3: { size_t r = ZSTD_CCtx_reset(cctx, t.flip() ? ZSTD_reset_parameters : ZSTD_reset_session_and_parameters); VF_CHECK(c, !ZSTD_isError(r), "reset"); e = Eff(); resets++; c.note("reset_params "); break; }
             default: {  // the simple API ignores advanced settings: equals a fresh context at that level
                 std::vector<uint8_t> x = sample((size_t)t.range(0, 60000));
